@@ -140,6 +140,10 @@ pub fn generate(g: &mut Gen, thorough: bool) {
         KpCase { inv: false, rt: false, z: None, t: None, d: Some(2), dim: Some(2), op: "addone".into(), files: vec![Some("1 2\n".into()), None, Some("3 4\n".into())] },
         KpCase { inv: false, rt: false, z: None, t: None, d: Some(2), dim: Some(2), op: "no_such_operator".into(), files: vec![Some("1 2\n".into())] },
         KpCase { inv: true, rt: false, z: None, t: None, d: Some(2), dim: Some(2), op: "curvature prime".into(), files: vec![Some("1 2\n".into())] },
+        // an invalid operation is an error whatever the input holds: nothing, comments only, blank lines
+        KpCase { inv: false, rt: false, z: None, t: None, d: Some(2), dim: Some(2), op: "no_such_operator foo=bar".into(), files: vec![Some(String::new())] },
+        KpCase { inv: false, rt: false, z: None, t: None, d: None, dim: None, op: "helmert x=not_a_number".into(), files: vec![Some("# only a comment\n\n".into())] },
+        KpCase { inv: true, rt: true, z: None, t: None, d: None, dim: None, op: "nosuch:macro".into(), files: vec![Some("\n".into()), Some(String::new())] },
         KpCase { inv: true, rt: true, z: None, t: None, d: Some(3), dim: Some(4), op: "addone".into(), files: vec![Some("1 2 3 4\n5 6 7 8\n".into())] },
         KpCase { inv: false, rt: false, z: Some(5.0), t: Some(2020.0), d: Some(1), dim: Some(4), op: "noop".into(), files: vec![Some("1 2\n3 4 9 1999\n".into())] },
     ];
@@ -152,7 +156,9 @@ pub fn generate(g: &mut Gen, thorough: bool) {
         KpCase { inv: true, rt: false, z: None, t: None, d: Some(3), dim: None, op: "utm zone=32".into(), files: vec![Some("500000 6000000\n".into()), Some("\u{1}BROKEN:# comment\n\n600000 6100000\n".into())] },
     ];
     // input that fills a whole number of internal batches (25000 lines each), and one line more or less
-    for (n, op, rt) in [(25000usize, "addone", false), (50000, "addone", false), (24999, "addone", false), (25001, "addone", false), (25000, "utm zone=32", true)] {
+    for (n, op, rt) in [(25000usize, "addone", false), (50000, "addone", false), (24999, "addone", false), (25001, "addone", false), (25000, "utm zone=32", true),
+        // residuals are those of the line itself, also beyond the first batch
+        (25003, "utm zone=32", true), (50001, "addone", true)] {
         let text: String = (0..n).map(|i| format!("{} {}\n", 5 + i % 7, 50 + i % 11)).collect();
         let c = KpCase { inv: false, rt, z: None, t: None, d: Some(3), dim: Some(2), op: op.into(), files: vec![Some(text)] };
         g.push(c.line("KP"), "whole-batches", true);
